@@ -116,6 +116,7 @@ func runC13(c *core.Ctx) {
 	s.ruleErrcheck() // S3
 	s.ruleBuffer()   // S4
 	s.ruleConsts()   // S5
+	runC13More(c)
 }
 
 // ownerOf: the receiver's named type and its sticky field (the unique field of
